@@ -332,7 +332,7 @@ def _iterate(case, rdr, stream, data, qoe, sock):
         except Exception as e:  # pylint: disable=broad-except
             raise Fail(f"foreign-exception:{type(e).__name__}@{lib_frame(e)}", f"iteration (quitonerror={qoe}): {type(e).__name__}: {e}") from e
     hostile = any(i["k"] in ("damaged", "decoy", "filler") or i.get("arbitrary") or i.get("syncy") for i in items)
-    cls = [f"qoe{qoe}", case["stream"], "raised" if raised else "quiet"] + (["long-run"] if case.get("long") else [])
+    cls = [f"qoe{qoe}", case["stream"], "raised" if raised else "quiet"] + (["long-run"] if case.get("long") else []) + (["socket-starts-with-a-response-header"] if items and items[0].get("response") else [])
     return Res(nontrivial=hostile or bool(case["script"]), classes=cls)
 
 
@@ -347,6 +347,9 @@ def s_iter(draw, tier):
             # the stream ends inside the last item (after 1, 2, 3 ... bytes of a frame)
             last = bytes.fromhex(items[-1]["b"])
             items = items[:-1] + [{"k": "decoy", "b": last[: draw(st.integers(1, max(1, len(last) - 1)))].hex(), "decoy": "truncated"}]
+    if kind in ("socket", "chunked-socket") and draw(st.integers(0, 2)) == 0:
+        # a caster's response header ahead of the data (complete, malformed, or cut off)
+        items = [draw(streams.response_headers())] + ([] if draw(st.integers(0, 5)) == 0 else items)
     if kind == "socket":
         n = sum(len(i["b"]) // 2 for i in items)
         extra = {"cuts": draw(streams.partitions(max(2, n))), "end": draw(st.sampled_from(["close", "close", "dead"]))}
@@ -430,6 +433,6 @@ SUBS = [
     Sub("mutated_messages", o_mut, strategy=s_mut, examples=(300, 8000), rule="mutation changed the payload", need={"truncate": 1, "splice": 1, "err": 1}, sample=_short),
     Sub("vtec_arbitrary", o_vtec, strategy=s_vtec, examples=(100, 3000), rule="every case", sample=_short),
     Sub("static_parse", o_static, strategy=s_static, examples=(250, 6000), rule="every case", need={"buflen<=6": 1}, sample=_short),
-    Sub("stream_iteration", o_iter, strategy=s_iter, enum=e_iter_long, examples=(200, 5000), rule="error-path item or read script present", need={"qoe0": 1, "qoe1": 1, "qoe2": 1, "long-run": 1}, sample=_short),
+    Sub("stream_iteration", o_iter, strategy=s_iter, enum=e_iter_long, examples=(200, 5000), rule="error-path item or read script present", need={"qoe0": 1, "qoe1": 1, "qoe2": 1, "long-run": 1, "socket-starts-with-a-response-header": 20}, sample=_short),
     __import__("pv.fuzz.campaign", fromlist=["make"]).make("C04", ("C04",)),
 ]
